@@ -253,6 +253,32 @@ def gen_C01(rng, tier):
         if kind != 5:
             pr.emit("P.Bytes", v, out)
         cases.append(pr)
+    # directed: every small-order point with odd / even / large scalars through each variable-base routine
+    pr = Prog(rng)
+    ks = [pr.scalar(k) for k in (1, 2, 3, 8, rng.randrange(L) | 1, L - 1)]
+    for ti, t in enumerate(torsion()):
+        tp = pr.point(spec.encode_point(t))
+        k1, k2 = rng.choice(ks), rng.choice(ks)
+        v = pr.point_zero()
+        o = pr.fresh("o")
+        which = (ti + (0 if tier != "thorough" else rng.randrange(4))) % 4
+        if which == 0:
+            pr.emit("P.ScalarMult", v, k1, tp)
+        elif which == 1:
+            pr.emit("P.VarTimeDoubleScalarBaseMult", v, k1, tp, k2)
+        elif which == 2:
+            pr.emit("P.MultiScalarMult", v, 2, 2, k1, k2, tp, tp)
+        else:
+            pr.emit("P.VarTimeMultiScalarMult", v, 1, 1, k1, tp)
+        pr.emit("P.Bytes", v, o)
+        if tier == "thorough":
+            for opn in ("P.ScalarMult", "P.VarTimeDoubleScalarBaseMult"):
+                for kk in ks[:4]:
+                    v = pr.point_zero()
+                    pr.emit(opn, v, kk, tp, *( [k2] if opn.startswith("P.Var") else []))
+                    pr.emit("P.Bytes", v, pr.fresh("o"))
+    pr.tag("torsion sweep")
+    cases.append(pr)
     if tier == "thorough":
         pr = Prog(rng)
         pr.emit("P.NewGenerator", "g")
@@ -421,6 +447,53 @@ def gen_C07(rng, tier):
         o = pr.fresh("o")
         pr.emit("S.Bytes", rng.choice(ss), o)
         pr.tag("scalar op chain")
+        cases.append(pr)
+    cases.extend(gen_C07_mont(rng, tier))
+    return cases
+
+
+MONT_EDGES = [0, 1, 2, 2**32, 2**63, 2**64 - 1, 2**64, 2**64 + 1, 2**128 - 1, 2**128, 2**192 - 1, 2**192, 2**192 + 1,
+              L - 1, L - 2, L % 2**128, L % 2**128 + 1, L % 2**128 - 1, 2**252, 2**252 - 1, 2**252 + 1, (L - 1) // 2]
+
+
+def words(n):
+    return [(n >> (64 * i)) & (2**64 - 1) for i in range(4)]
+
+
+def gen_C07_mont(rng, tier):
+    """scalars injected by their Montgomery-domain limbs: boundary patterns of the saturated 4x64 representation
+    (carry/borrow chains, conditional subtraction of l), and pairs differing in a single bit (Equal's OR-folding)"""
+    cases = []
+    for _ in range(scale(tier, 4, 40)):
+        pr = Prog(rng)
+        vals = list(MONT_EDGES) + [rng.randrange(L) for _ in range(4)]
+        names = []
+        for v in vals:
+            n = pr.fresh("s")
+            pr.emit("S.limbs", n, *words(v % L))
+            names.append(n)
+        dst = pr.scalar(None)
+        for _ in range(scale(tier, 60, 200)):
+            a, b = rng.choice(names), rng.choice(names)
+            op = rng.choice(["S.Add", "S.Subtract", "S.Multiply", "S.Negate", "S.Equal"])
+            if op == "S.Negate":
+                pr.emit(op, dst, a)
+                pr.emit("S.Equal", dst, a)
+                pr.emit("S.Equal", a, dst)
+            elif op == "S.Equal":
+                pr.emit(op, a, b)
+            else:
+                pr.emit(op, dst, a, b)
+        # single-bit differences at every limb position
+        base = rng.randrange(L // 2)
+        sb = pr.fresh("s")
+        pr.emit("S.limbs", sb, *words(base))
+        for k in ([rng.randrange(252) for _ in range(24)] + [0, 31, 32, 33, 63, 64, 95, 96, 127, 128, 160, 191, 192, 224, 251]):
+            t = pr.fresh("s")
+            pr.emit("S.limbs", t, *words((base + 2**k) % L))
+            pr.emit("S.Equal", t, sb)
+            pr.emit("S.Equal", sb, t)
+        pr.tag("Montgomery-limb boundary patterns; single-bit differences")
         cases.append(pr)
     return cases
 
@@ -615,6 +688,10 @@ def gen_C11(rng, tier):
             pts = [point_in(pr, rng) for _ in range(3)]
             scs = [pr.scalar(rand_scalar(rng)) for _ in range(2)]
             v = pts[0]
+            zs = pr.scalar(0)
+            w = pr.point_zero()
+            pr.emit(op, w, 3, 3, zs, scs[0], scs[1], pts[0], pts[1], pts[2])
+            pr.emit(op, w, 3, 3, scs[0], zs, scs[1], pts[2], pts[1], pts[0])
             pr.emit(op, v, 3, 3, scs[0], scs[1], scs[0], pts[0], pts[1], pts[0])
             pr.emit(op, pts[1], 2, 2, scs[0], scs[0], pts[1], pts[1])
             pr.tag(f"{op} receiver inside points")
@@ -760,7 +837,20 @@ def gen_C14(rng, tier):
         pr = Prog(rng)
         e = pr.elem(limbs=rand_limbs(rng))
         s = pr.scalar(rand_scalar(rng))
-        p = point_in(pr, rng)
+        # receivers in both kinds of state: freshly decoded (Z = 1) and after arithmetic (Z != 1)
+        p = point_in(pr, rng, rescale_prob=0)
+        p2 = point_in(pr, rng, rescale_prob=0)
+        pr.emit("P.Add", p2, p2, p)
+        for rcv in (p, p2):
+            for _ in range(6):
+                enc = rng.randbytes(32)
+                if spec.decode_point(enc) is None:
+                    pr.emit("P.SetBytes", rcv, pr.bytes_(enc))
+            for bad in (bytes([2] + [0] * 31), bytes([0xff] * 32)):
+                if spec.decode_point(bad) is None:
+                    pr.emit("P.SetBytes", rcv, pr.bytes_(bad))
+            X, Y, Z, T = (pr.elem(rand_fe(rng)) for _ in range(4))
+            pr.emit("P.SetExtendedCoordinates", rcv, X, Y, Z, T)
         for ln in range(0, 71):
             b = pr.bytes_(rng.randbytes(ln))
             if ln != 32:
@@ -991,6 +1081,47 @@ def gen_C20(rng, tier):
         pr.tag("asm vs generic on boundary limbs")
         cases.append(pr)
     return cases
+
+
+def variants(lines, rng, n=200):
+    """neighbourhood search around a case on which the implementation and the model disagree: re-run the same
+    operation sequence with the byte strings that feed scalars / points / elements replaced by edge values
+    (small/odd/extreme scalars, the 8 torsion points and their translates, boundary field values)."""
+    users = {}
+    for l in lines:
+        w = l.split()
+        if w[0] in ("S.SetCanonicalBytes", "P.SetBytes", "E.SetBytes", "S.SetUniformBytes", "S.SetBytesWithClamping"):
+            users.setdefault(w[2], w[0])
+    sets = [(i, l.split()) for i, l in enumerate(lines) if l.startswith("B.set ") and l.split()[1] in users]
+    out = []
+    if not sets:
+        return out
+    tors = [spec.encode_point(t) for t in torsion()]
+    for _ in range(n):
+        new = list(lines)
+        k = rng.choice([1, 1, 2, 3])
+        for (i, w) in rng.sample(sets, min(k, len(sets))):
+            u = users[w[1]]
+            if u == "P.SetBytes":
+                c = rng.random()
+                if c < 0.6:
+                    b = rng.choice(tors)
+                elif c < 0.8:
+                    b = spec.encode_point(spec.add(spec.smul(rng.randrange(1, 50), spec.B), rng.choice(torsion())))
+                else:
+                    b = spec.encode_point(rand_point(rng))
+            elif u == "S.SetCanonicalBytes":
+                b = le32(rng.choice(SCALAR_EDGES + [1, 3, 5, 7, 9, 15, 17, 2**252 + 1, L - 1, L - 2, rng.randrange(L) | 1, rng.randrange(L) & ~1]))
+            elif u == "E.SetBytes":
+                b = le32(rng.choice([0, 1, 2, P - 1, P, P + 1, P + 18, 2**255 - 1, spec.SQRTM1, rand_fe(rng)]))
+            else:
+                b = rng.randbytes(len(bytes.fromhex(w[2])) if w[2] != "-" else 0)
+            new[i] = f"B.set {w[1]} {hexb(b)}"
+        pr = Prog(rng)
+        pr.lines = new
+        pr.tag("neighbourhood variant of a disagreeing case")
+        out.append(pr)
+    return out
 
 
 GENS = {
